@@ -338,6 +338,14 @@ func genMix(p *Plan, r *RNG, bias string) {
 	if r.Chance(1, 6) {
 		addHairpin(p, r)
 	}
+	if !v6 && fam == "" && p.Cfg.Nonce == "" && r.Chance(1, 8) {
+		// a bundled relay address generator (static, or a port range of 3-40 ports) instead of the harness's
+		if p.Cfg.Extra == nil {
+			p.Cfg.Extra = map[string]int64{}
+		}
+		p.Cfg.Extra["real_gen"] = int64(r.PickInt([]int{1, 1, 3, 8, 40}))
+		p.Flavor += "+bundled-gen"
+	}
 	addFaults(p, r, faultLevel(r))
 	if r.Chance(1, 5) {
 		addOverlap(p, r)
